@@ -361,6 +361,14 @@ def check_collision(prog, r):
                 op = g[1]
                 if not local_left:
                     op = {"Gt": "Lt", "Lt": "Gt", "Ge": "Le", "Le": "Ge"}[op]
+                # the identifiers must be compared as stored (both are host-order u32): any conversion applied to an
+                # operand (byte swap, truncation, arithmetic) changes the numeric order RFC 4271 §6.8 prescribes
+                allowed = re.compile(r".*(fsm::Connection::remote_id|fsm::PeerFsm::connection|Option::<T>::(map|unwrap_or|copied)|FnOnce::call_once|Fn::call)$")
+                odd = [c for x in (a, b) for c in expr_calls(x) if not allowed.fullmatch(c)]
+                odd += [x[1] for y in (a, b) for x in walk(y) if isinstance(x, tuple) and x and x[0] in ("bin", "un", "cast") and x is not g]
+                if odd:
+                    r.fail(cw.name, "winner-operand-transformed", "collision_winner compares transformed identifiers (%s): the BGP identifiers are stored in host order and must be compared as unsigned integers as they are" % ", ".join(sorted(set(map(str, odd)))), cw.loc(bi))
+                    continue
                 holds = labels == {"true"}
                 rel = op if holds else {"Gt": "Le", "Lt": "Ge", "Ge": "Lt", "Le": "Gt"}[op]
                 if (v == "Active" and rel == "Gt") or (v == "Passive" and rel == "Le"):
